@@ -1,4 +1,5 @@
 import Netconan.Model.IpCore
+import Netconan.Model.Mask
 import Netconan.Model.Md5
 import Netconan.Driver.Util
 /-! Driver commands for the IP core. -/
@@ -72,6 +73,13 @@ def ipCmd (objs : List (String × IpObj)) (ws : List String) : Option (String ×
     | none => some ("bad-op", objs)
     | some o => some (s!"ok {ofBits (Spec.Gfull o.h o.pins o.L o.B (fmt o.L n.toNat!))}", objs)
   | ["ipfree", id] => some ("ok", objs.filter (·.1 != id))
+  | ["ismask", n] => some (if Mask.isMask n.toNat! then "ok 1" else "ok 0", objs)
+  -- shouldanon <n> <addr>/<plen> ...
+  | "shouldanon" :: n :: nets =>
+    let ns := nets.map (fun t => match t.splitOn "/" with
+      | [a, p] => (⟨a.toNat!, p.toNat!⟩ : Mask.Net)
+      | _ => ⟨0, 0⟩)
+    some (if Mask.shouldAnonymize ns n.toNat! then "ok 1" else "ok 0", objs)
   | _ => none
 
 end Netconan.Driver
